@@ -616,6 +616,7 @@ type xstore struct {
 	sawGC, sawDelete, sawReopen, sawCascade bool
 	gcHung bool
 	origin string
+	autoSaveOff bool // Store.AutoSaveIndex was set to false on the current store
 	// store-level model (Model/GraphStore.v): operations and observations
 	sops, stoks, lastSweep []string
 }
@@ -966,7 +967,33 @@ func (e *xstore) do(op string) {
 				}
 			}
 		}
+	case "autosave":
+		if e.ociSt == nil {
+			return
+		}
+		e.ociSt.AutoSaveIndex = arg == "on"
+		e.autoSaveOff = arg != "on"
+		if e.autoSaveOff {
+			e.sops = append(e.sops, "Y0")
+		} else {
+			e.sops = append(e.sops, "Y1")
+		}
+		run.Count("autosave-" + arg)
+		return
+	case "saveindex":
+		if e.ociSt == nil {
+			return
+		}
+		if err := e.ociSt.SaveIndex(); err != nil {
+			e.fail("saveindex-error", fmt.Sprintf("SaveIndex: %v", err))
+		}
+		e.sops = append(e.sops, "W")
+		run.Count("saveindex")
+		return
 	case "foreign":
+		if e.ociSt != nil && e.autoSaveOff {
+			e.do("saveindex")
+		}
 		// index.json rewritten the way other tools write a layout (and the way oras-go left it
 		// after GC before 34cefcb): only the tagged manifests and the manifests without a stored
 		// parent are listed; nested manifests are reachable through them only.  Followed by a reopen.
@@ -1264,6 +1291,12 @@ func (e *xstore) do(op string) {
 		if e.ociSt == nil {
 			return
 		}
+		if e.autoSaveOff {
+			// the caller's duty with AutoSaveIndex off: save before the layout is read again
+			e.script = e.script[:len(e.script)-1]
+			e.do("saveindex")
+			e.script = append(e.script, op)
+		}
 		e.sawReopen = true
 		roots, err := e.indexRoots()
 		if err != nil {
@@ -1280,6 +1313,10 @@ func (e *xstore) do(op string) {
 			s.AutoGC = e.autoGC
 			e.ociSt = s
 			e.st, e.push = s, s
+			if e.autoSaveOff {
+				e.autoSaveOff = false // a new Store starts with AutoSaveIndex = true
+				e.sops = append(e.sops, "Y1")
+			}
 			e.mops = append(e.mops, "Z")
 			for _, r := range roots {
 				e.mops = append(e.mops, fmt.Sprintf("A%d", r))
@@ -1618,6 +1655,12 @@ func genStore(r *common.Rand, kind string, origin string) {
 				}
 			}
 		case x < 84:
+			if e.autoSaveOff {
+				e.do(common.Pick(r, []string{"autosave:on", "saveindex", "saveindex"}))
+			} else {
+				e.do("autosave:off")
+			}
+		case x < 87:
 			e.do("foreign")
 			e.do("reopen:" + common.Pick(r, []string{"dir", "dir", "dir", "fs", "tar"}))
 		default:
@@ -2157,6 +2200,11 @@ func genChain(r *common.Rand, origin string) {
 	if r.Bool() {
 		common.Shuffle(r, order)
 	}
+	if r.Chance(1, 3) {
+		// everything below with AutoSaveIndex off: index.json is written by SaveIndex only
+		// (issued before every reopen)
+		e.do("autosave:off")
+	}
 	for _, i := range order {
 		e.do(fmt.Sprintf("push:%d", i))
 	}
@@ -2425,7 +2473,7 @@ func coverageFloors() []string {
 		"history-with-autogc-cascade": 5, "reopen-dir": 40, "reopen-fs": 15, "reopen-tar": 15,
 		"foreign-roots-only-index": 10, "push-concurrent": 40, "order-parents-first": 40,
 		"order-children-first": 40, "order-shuffled": 40, "query-absent-node-with-preds": 500,
-		"tag-non-manifest": 5, "delete-absent": 5, "phase2-concurrent-push": 10,
+		"tag-non-manifest": 5, "delete-absent": 5, "phase2-concurrent-push": 10, "autosave-off": 12, "saveindex": 8,
 		"links-dockermanifest": 40, "links-imagemanifest": 40, "links-dockerlist": 40, "links-imageindex": 40,
 		"links-artifact": 40, "links-other": 40,
 	}
